@@ -81,6 +81,23 @@ class Hooks:
             hooks._env_call("open-w" if any(c in mode for c in "wax+") else "open-r", fd)
             return _FileProxy(hooks, f, any(c in mode for c in "wax+"))
 
+        enc_encode = json.JSONEncoder.encode
+        enc_iterencode = json.JSONEncoder.iterencode
+        hooks._enc = (enc_encode, enc_iterencode)
+
+        def encode(self_, o):
+            # the same injected failure for code that serialises through an encoder instance instead of json.dumps
+            if hooks.active and hooks.fail_dumps and _from_lib():
+                raise TypeError("Object of type Injected is not JSON serializable")
+            return enc_encode(self_, o)
+
+        def iterencode(self_, o, *a, **kw):
+            if hooks.active and hooks.fail_dumps and _from_lib():
+                raise TypeError("Object of type Injected is not JSON serializable")
+            return enc_iterencode(self_, o, *a, **kw)
+
+        json.JSONEncoder.encode = encode
+        json.JSONEncoder.iterencode = iterencode
         builtins.open = open_
         import io
         io.open = open_
@@ -97,6 +114,8 @@ class Hooks:
         os.replace = self._replace
         os.stat = self._stat
         json.dumps = self._dumps
+        if getattr(self, "_enc", None):
+            json.JSONEncoder.encode, json.JSONEncoder.iterencode = self._enc
 
     # ---- env-call accounting and failure injection
     def _env_call(self, kind_, detail=None):
